@@ -1,6 +1,6 @@
 (* Executor ops for Model/Packet.v and Model/Create.v (C01: the hdr ops, C02: the pay ops).
    goexec/packet.go registers the same names over the real library and prints the same text. *)
-From Gots Require Import Base.Prelude Exec.ExecBase Model.Packet Model.Create Spec.Iso13818Hdr.
+From Gots Require Import Base.Prelude Exec.ExecBase Model.Packet Model.Create Spec.Iso13818Hdr Spec.Iso13818Recog.
 Import Packet.
 
 (* ---- observations ---- *)
@@ -179,6 +179,9 @@ Definition ops : list op := [
             rd_b3 | _ => vbad end);
   (* ---------------- C02 ---------------- *)
   ("ser.pkt", ser_pkt_op);
+  (* JUDGE: is this byte string a well-formed transport packet (Spec/Iso13818Recog.v; sound by C02_wf_recogniser_sound);
+     applied by bin/gen/c02.py to the REAL result of SetPayload *)
+  ("spec.pkt.wf", fun a => match a with [VB p] => vbool (IsoRecog.wf_pktb p) | _ => vbad end);
   (* Payload (fn, view), Payload (method, copy), Header, PESHeader, packet unchanged, method result is a copy *)
   ("pay.view", fun a => match a with [VB p] =>
       VL [vres VB (Payload_fn p); vres VB (Payload_m p); vres VB (Header p); vres VB (PESHeader p); one; one]
